@@ -16,7 +16,7 @@ csv quoting, encodings and third-party readability are runtime questions and not
 import ast
 import re
 
-from ..astutil import Env, chain, src, walk, const, stmts, strip_not, is_none_test
+from ..astutil import Env, chain, src, walk, const, stmts, strip_not, is_none_test, canon_comp
 from ..model import Unrecognised
 from .c13 import name_is
 
@@ -85,7 +85,13 @@ def registry(model, R):
     inf = model.func('formats.base.FormatMeta.infer_format')
     r = [src(n.value) for n in walk(inf.body) if isinstance(n, ast.Return)]
     sp = [s for s in inf.body if isinstance(s, ast.Assign) and 'splitext' in src(s.value)]
-    ok = r == ['self.by_suffix[suffix.lower()]'] and bool(sp) and src(sp[0].targets[0]) == '(_, suffix)' and src(sp[0].value) == f'os.path.splitext({inf.params[1]})'
+    split = f'os.path.splitext({inf.params[1]})'
+    sfx = None       # the local that holds the second component of splitext(filename)
+    if sp and isinstance(sp[0].targets[0], ast.Tuple) and len(sp[0].targets[0].elts) == 2 and src(sp[0].value) == split:
+        sfx = src(sp[0].targets[0].elts[1])
+    elif sp and isinstance(sp[0].targets[0], ast.Name) and src(sp[0].value) in (f'{split}[1]', f'{split}[-1]'):
+        sfx = sp[0].targets[0].id
+    ok = sfx is not None and r == [f'self.by_suffix[{sfx}.lower()]']
     keys = [n.slice for n in walk(inf.body) if isinstance(n, ast.Subscript) and src(n.value).endswith('by_suffix')]
     raw = [k for k in keys if isinstance(k, ast.Name) and sp and any(isinstance(t, ast.Name) and t.id == k.id for t in ast.walk(sp[0].targets[0]))
            and not any(isinstance(a, ast.Assign) and any(isinstance(t, ast.Name) and t.id == k.id for t in a.targets) for a in inf.body if a is not sp[0])]
@@ -369,7 +375,11 @@ def symbol_tables(model, R):
     wk = model.func('formats.wiki_table.dump_file')
     cells = [n for n in walk(wk.body) if isinstance(n, ast.IfExp) and isinstance(const(n.body), str) and isinstance(const(n.orelse), str)]
     ok = len(cells) == 1 and const(cells[0].body).strip() and not const(cells[0].orelse).strip() and name_is(cells[0].test, 'b')
-    R.check(bool(ok), 'SYMBOLS', wk, cells[0] if cells else wk.node, 'wiki-table: true cell non-blank, false cell blank', "'X' if b else ''")
+    if cells:
+        R.check(bool(ok), 'SYMBOLS', wk, cells[0], 'wiki-table: true cell non-blank, false cell blank', "'X' if b else ''", src(cells[0]))
+    else:
+        # wiki-table has no reader in the package; without the conditional-constant idiom the cell texts are not decided
+        R.soft(False, 'LAYOUT', wk, wk.node, 'wiki-table: true cell non-blank, false cell blank', "'X' if b else ''", 'cell texts computed differently')
     seq = [src(n.args[0]) for n in sorted((n for n in walk(wk.body) if isinstance(n, ast.Call) and name_is(n.func, 'write')), key=lambda n: n.lineno)]
     want = ["'{| class=\"featuresystem\"'", "'!'", "'!{}'.format('!!'.join(properties))", "'|-'", "f'!{o}'", "'|{}'.format('||'.join(bcells))", "'|}'"]
     R.soft(seq == want, 'LAYOUT', wk, wk.node, 'wiki-table layout: header cells with !!, one |- row per object with || cells', str(want), str(seq))
@@ -465,7 +475,8 @@ def index_exports(model, R):
     R.check(ok, 'INDEX-EXPORT', rd, rd.node, 'read_concepts_dat: one integer tuple per line', 'tuple(map(int, values))')
     # python-literal context rows
     pd = model.func('formats.python_literal.dump_file')
-    ok = any(src(n) == '[tuple((i for i, b in enumerate(row) if b)) for row in bools]' for n in walk(pd.body))
+    want_rows = canon_comp(ast.parse('[tuple((i for i, b in enumerate(row) if b)) for row in bools]', mode='eval').body)
+    ok = any(isinstance(n, ast.ListComp) and canon_comp(n) == want_rows for n in walk(pd.body))
     R.check(ok, 'INDEX-EXPORT', pd, pd.node, 'python-literal context rows: positions of exactly the true cells', '[tuple(i for i, b in enumerate(row) if b) for row in bools]')
     pl = model.func('formats.python_literal.load_file')
     text = src(pl.node)
